@@ -126,6 +126,10 @@ const TARGETS: &[Target] = &[
              imports: "Model.Scan Model.Regex Model.Opt Tie.RsOpt Tie.RsStr Tie.RsList", ret_muts: false, fuel: "" },
     Target { name: "get_last_bound", file: "src/stream.rs", impl_trait: None, impl_self: Some("ForwardBounds"), func: "get_last_bound",
              calls: &[], deps: &[], imports: "Model.Scan Model.Regex Model.Opt Model.Stream Tie.RsOpt Tie.RsList", ret_muts: false, fuel: "" },
+    Target { name: "lines_forward", file: "src/cut_lines.rs", impl_trait: None, impl_self: None, func: "cut_lines_forward_only",
+             calls: &[("matches", "gen_ub_matches")], deps: &["ub_matches"],
+             imports: "Model.Scan Model.Regex Model.Opt Model.Utf8 Model.CutStr Model.CutLines Tie.RsOpt Tie.RsStr Tie.RsList Tie.RsLines", ret_muts: false,
+             fuel: "(S (length stdin + length (items (o_bounds opt))))" },
     Target { name: "fast_try_from", file: "src/fast_lane.rs", impl_trait: Some("TryFrom"), impl_self: Some("FastOpt"),
              func: "try_from", calls: &[], deps: &[], imports: "Model.Scan Model.Regex Model.Opt Tie.RsOpt", ret_muts: false, fuel: "" },
     Target { name: "stream_try_from", file: "src/stream.rs", impl_trait: Some("TryFrom"), impl_self: Some("StreamOpt"),
@@ -135,7 +139,7 @@ const TARGETS: &[Target] = &[
 const WRITE_MAYBE_AS_JSON: &str = "($writer:ident,$to_print:ident,$as_json:expr)=>{{if$as_json{$writer.write_all(serde_json::to_string(std::str::from_utf8(&$to_print)?)?.as_bytes())?;}else{$writer.write_all(&$to_print)?;}}};";
 
 #[derive(Clone, PartialEq, Debug)]
-enum Ty { I32, Usize, Bool, Side, UB, UBL, Regex, Trim, StreamRec, FBRec, Range, Opt(Box<Ty>), List(Box<Ty>), OptRec, FastRec, BType, Bytes, Byte, Str, Pair(Box<Ty>, Box<Ty>), Other }
+enum Ty { I32, Usize, Int, Bool, Side, UB, UBL, Regex, Trim, StreamRec, FBRec, Range, Opt(Box<Ty>), List(Box<Ty>), OptRec, FastRec, BType, Bytes, Byte, Str, Pair(Box<Ty>, Box<Ty>), Other }
 
 type R<T> = std::result::Result<T, String>;
 
@@ -167,6 +171,7 @@ struct Cx {
     /// top-level statement becomes a definition of its own (a stage), applied to the variables it uses
     stage_top: Option<(String, usize, usize, usize)>,
     stages: Vec<String>,
+    body_text: String,
 }
 
 const KEYWORDS: &[&str] = &["end", "match", "with", "fun", "let", "in", "if", "then", "else", "return", "as", "at", "fix",
@@ -175,7 +180,7 @@ const KEYWORDS: &[&str] = &["end", "match", "with", "fun", "let", "in", "if", "t
 /// free functions of src/cut_str.rs that fill a scratch vector handed in by `&mut`: the position of that argument
 fn coq_ty(t: &Ty) -> Option<String> {
     Some(match t {
-        Ty::I32 | Ty::Usize => "Z".into(), Ty::Bool => "bool".into(), Ty::Side => "side".into(), Ty::UB => "ubound".into(), Ty::UBL => "ublist".into(),
+        Ty::I32 | Ty::Usize | Ty::Int => "Z".into(), Ty::Bool => "bool".into(), Ty::Side => "side".into(), Ty::UB => "ubound".into(), Ty::UBL => "ublist".into(),
         Ty::Regex => "(rx * bool)%type".into(), Ty::Trim => "trimk".into(), Ty::Range => "(Z * Z)%type".into(),
         Ty::Opt(x) => format!("(option {})", coq_ty(x)?), Ty::List(x) => format!("(list {})", coq_ty(x)?),
         Ty::OptRec => "opt".into(), Ty::FastRec => "gfopt".into(), Ty::StreamRec => "gsopt".into(), Ty::FBRec => "gfb".into(), Ty::BType => "btype".into(), Ty::Bytes | Ty::Str => "bytes".into(), Ty::Byte => "byte".into(),
@@ -452,6 +457,8 @@ impl Cx {
                 name => self.call_ty.get(name).cloned().unwrap_or(Ty::Other),
             },
             Expr::Call(c) if matches!(&*c.func, Expr::Path(p) if path_str(&p.path) == "memchr::memchr_iter") => Ty::List(Box::new(Ty::Usize)),
+            Expr::Call(c) if matches!(&*c.func, Expr::Path(p) if path_str(&p.path) == "String::with_capacity" || path_str(&p.path) == "String::new") => Ty::Str,
+            Expr::Call(c) if matches!(&*c.func, Expr::Path(p) if path_str(&p.path) == "read_line_with_eol") => Ty::Opt(Box::new(Ty::Opt(Box::new(Ty::Str)))),
             Expr::Call(c) => match &*c.func {
                 Expr::Path(p) if (path_str(&p.path) == "Some" || path_str(&p.path) == "Ok") && c.args.len() == 1 => Ty::Opt(Box::new(self.ty(&c.args[0]))),
                 Expr::Path(p) if path_str(&p.path).ends_with("str::from_utf8") => Ty::Opt(Box::new(Ty::Str)),
@@ -467,7 +474,9 @@ impl Cx {
     fn int_ty(&self, a: &Expr, b: &Expr) -> Ty {
         // literals adapt to the other operand
         let lit = |e: &Expr| matches!(e, Expr::Lit(ExprLit { lit: Lit::Int(i), .. }) if i.suffix().is_empty());
-        let (ta, tb) = (self.ty(a), self.ty(b));
+        // an integer variable whose width is not known yet behaves as an untyped operand
+        let norm = |t: Ty| if t == Ty::Int { Ty::Other } else { t };
+        let (ta, tb) = (norm(self.ty(a)), norm(self.ty(b)));
         if lit(a) && !lit(b) { return if tb == Ty::Other { Ty::I32 } else { tb }; }
         if lit(b) && !lit(a) { return if ta == Ty::Other { Ty::I32 } else { ta }; }
         if ta == Ty::Other { tb } else { ta }
@@ -551,6 +560,7 @@ impl Cx {
                     ("get", 1) if self.ty(&m.receiver) == Ty::UBL => format!("(nth_error (items {}) (Z.to_nat {}))", recv, args[0]),
                     ("enumerate", 0) => format!("(enumerate_z (to_list {}))", recv),
                     ("rev", 0) => format!("(List.rev {})", recv),
+                    ("len", 0) if self.ty(&m.receiver) == Ty::UBL => format!("(Z.of_nat (length (items {})))", recv),
                     ("len", 0) => format!("(Z.of_nat (length {}))", recv),
                     ("is_empty", 0) if self.ty(&m.receiver) == Ty::UBL => format!("(match (items {}) with [] => true | _ => false end)", recv),
                     ("is_empty", 0) => format!("(match {} with [] => true | _ => false end)", recv),
@@ -588,7 +598,8 @@ impl Cx {
                 if self.calls.contains_key(&f) { return Ok(None); }
                 if f == "Err" { return Ok(Some("None".to_string())); }
                 if f == "Vec::with_capacity" { return Ok(Some("[]".to_string())); }
-                if f == "read_bytes_to_end" { return Ok(None); }
+                if f == "read_bytes_to_end" || f == "read_line_with_eol" { return Ok(None); }
+                if f == "String::with_capacity" || f == "String::new" { return Ok(Some("([] : bytes)".to_string())); }
                 let mut args = vec![];
                 for a in &c.args { match self.pure(a)? { Some(x) => args.push(x), None => return Ok(None) } }
                 if f == "Err" { "None".to_string() }
@@ -865,7 +876,33 @@ impl Cx {
             Expr::While(w) => {
                 // while COND { BODY }: the mutable variables are the state; bounded by the target's fuel term
                 if self.fuel.is_empty() { return Err("while loop in a function without a fuel term".into()); }
-                if matches!(&*w.cond, Expr::Let(_)) { return Err("while let".into()); }
+                if let Expr::Let(l) = &*w.cond {
+                    // while let PAT = E { BODY }  ==  loop { match E { PAT => BODY, _ => break } }
+                    let st_pat = self.muts_pat(); let st_tup = self.muts_tuple();
+                    let outer_ret = self.retk();
+                    let saved_ret_ty = std::mem::replace(&mut self.ret_ty, "_".to_string()); self.retk_stack.push("(fun x => Ret (Break x))".into());
+                    self.loop_state.push(st_tup.clone());
+                    let mark = self.env.len(); let mmark = self.muts.len();
+                    self.tuple_hint = vec![];
+                    let hint = self.ty(&l.expr);
+                    let res: R<String> = (|| {
+                        let (p, _) = self.pat(&l.pat, hint)?;
+                        let body = self.stmts(&w.body.stmts, "(fun _ => Ret (Next LOOPSTATE))")?;
+                        let sc = self.fresh("s");
+                        // the state named in the body's final continuation is the one current there
+                        let body = body.replace("LOOPSTATE", &st_tup);
+                        self.env.truncate(mark); self.muts.truncate(mmark);
+                        self.tr(&l.expr, &format!("(fun {} => match {} with | {} => {} | _ => Ret (Stop {}) end)", sc, sc, p, body, st_tup))
+                    })();
+                    self.env.truncate(mark); self.muts.truncate(mmark);
+                    self.loop_state.pop();
+                    self.retk_stack.pop(); self.ret_ty = saved_ret_ty;
+                    let step = res?;
+                    let (r, v) = (self.fresh("r"), self.fresh("v"));
+                    let sp = st_pat.trim_start_matches('\'');
+                    return Ok(format!("(bind (loopWhile {} (fun {} => {}) {}) (fun {} => match {} with Next {} => ({} tt) | Stop {} => ({} tt) | Break {} => ({} {}) end))",
+                                      self.fuel, st_pat, step, st_tup, r, r, sp, k, sp, k, v, outer_ret, v));
+                }
                 let st_pat = self.muts_pat(); let st_tup = self.muts_tuple();
                 let outer_ret = self.retk();
                 let cond = self.tr(&w.cond, "(fun c => Ret c)")?;
@@ -1135,6 +1172,19 @@ impl Cx {
                         return Ok(acc);
                     }
                 }
+                if f == "read_line_with_eol" && c.args.len() == 3 {
+                    // read_utils::read_line_with_eol(reader, &mut buf, eol): the next line with its terminator, taken off the input
+                    // (None at the end of input, Some(Err) when the line is not valid UTF-8); the buffer's content is the value returned
+                    if let Expr::Path(rp) = &c.args[0] {
+                        let rn = path_str(&rp.path);
+                        if self.readers.contains(&rn) && self.muts.contains(&rn) {
+                            let e = self.pure(&c.args[2])?.ok_or("read_line_with_eol: the terminator")?;
+                            let (a, b) = (self.fresh("r"), self.fresh("rest"));
+                            return Ok(format!("(let '({}, {}) := read_line_eol {} {} in (let {} := {} in ({} {})))", a, b, e, ident(&rn), ident(&rn), b, k, a));
+                        }
+                    }
+                    return Err("read_line_with_eol on something other than the reader".into());
+                }
                 if f == "read_bytes_to_end" && c.args.len() == 2 {
                     // read_utils::read_bytes_to_end(reader, &mut buf): buf becomes everything that is left of the input;
                     // None when that is nothing, Some(Ok(..)) otherwise (reads do not fail here: C14's business)
@@ -1340,7 +1390,11 @@ impl Cx {
                 if init.diverge.is_some() { return Err("let-else".into()); }
                 let hint = match &l.pat {
                     Pat::Type(_) => Ty::Other,
-                    Pat::Ident(pi) if pi.mutability.is_some() && matches!(&*init.expr, Expr::Lit(ExprLit { lit: Lit::Int(i), .. }) if i.suffix().is_empty()) => Ty::Other,
+                    Pat::Ident(pi) if pi.mutability.is_some() && matches!(&*init.expr, Expr::Lit(ExprLit { lit: Lit::Int(i), .. }) if i.suffix().is_empty()) => {
+                        // `let mut x = 0`: usize when it indexes something (`.get(x)`), otherwise decided at each use
+                        let n = pi.ident.to_string();
+                        if self.stage_top.is_some() { if self.body_text.contains(&format!("get ({})", n)) || self.body_text.contains(&format!("get ( {} )", n)) { Ty::Usize } else { Ty::Int } } else { Ty::Other }
+                    }
                     _ => self.ty(&init.expr) };
                 let mark = self.env.len();
                 let mm0 = self.muts.len();
@@ -1547,7 +1601,7 @@ fn find_fn<'a>(file: &'a File, t: &Target) -> Option<(&'a Signature, &'a Block, 
 fn translate(t: &Target, sig: &Signature, block: &Block, ret_tys: &HashMap<String, Ty>) -> R<(String, Ty)> {
     let mut cx = Cx { env: vec![], fresh: 0, calls: t.calls.iter().map(|(a, b)| (a.to_string(), b.to_string())).collect(),
                       call_ty: t.calls.iter().filter_map(|(a, b)| ret_tys.get(*b).map(|ty| (a.to_string(), ty.clone()))).collect(),
-                      renames: vec![], tuple_hint: vec![], ret_ty: String::new(), inline_k: false, muts: vec![], rebind_ok: false, writers: vec![], readers: vec![], loop_state: vec![], fuel: t.fuel.to_string(), retk_stack: vec![], stage_top: None, stages: vec![] };
+                      renames: vec![], tuple_hint: vec![], ret_ty: String::new(), inline_k: false, muts: vec![], rebind_ok: false, writers: vec![], readers: vec![], loop_state: vec![], fuel: t.fuel.to_string(), retk_stack: vec![], stage_top: None, stages: vec![], body_text: quote::ToTokens::to_token_stream(block).to_string() };
     cx.inline_k = quote::ToTokens::to_token_stream(block).to_string().contains("let mut ");
     let self_coq = match t.impl_self { Some("Side") => ("side", Ty::Side), Some("UserBounds") => ("ubound", Ty::UB), Some("UserBoundsList") => ("ublist", Ty::Other), Some("FastOpt") => ("gfopt", Ty::Other), Some("StreamOpt") => ("gsopt", Ty::Other), Some("ForwardBounds") => ("gfb", Ty::FBRec), _ => ("UNKNOWN", Ty::Other) };
     let mut rty = Ty::Other;
@@ -1576,6 +1630,7 @@ fn translate(t: &Target, sig: &Signature, block: &Block, ret_tys: &HashMap<Strin
                     // stdin: &mut R (R: BufRead): the input that is left to read
                     cx.env.push((name.clone(), Ty::Bytes));
                     cx.readers.push(name.clone());
+                    if quote::ToTokens::to_token_stream(block).to_string().contains("while let ") { cx.muts.push(name.clone()); }
                     write!(params, " ({} : bytes)", ident(&name)).unwrap();
                     continue;
                 }
@@ -1604,7 +1659,7 @@ fn translate(t: &Target, sig: &Signature, block: &Block, ret_tys: &HashMap<Strin
         let inits = cx.writers.iter().map(|w| format!("let {} := ([] : bytes) in ", ident(w))).collect::<String>();
         cx.retk_stack.push(format!("(fun x => Ret (x, {}))", outs));
         let k = cx.retk();
-        if t.name == "cut_str" {
+        if t.name == "cut_str" || t.name == "lines_forward" {
             let r = block.stmts.as_ptr_range();
             cx.stage_top = Some((format!("gen_{}", t.name), r.start as usize, r.end as usize, block.stmts.len()));
         }
